@@ -260,6 +260,59 @@ def run_library(case):
             common.rmtree(cwd)
 
 
+def parse_fortran(code):
+    """(module procedures, {generic: [specifics]}) of preprocessed, comment-free, continuation-joined module text."""
+    contains = "\n".join(part.split("\ncontains\n", 1)[1] for part in code.split("end module") if "\ncontains\n" in part)
+    procs = [m.lower() for m in re.findall(r"^\s*(?:pure\s+|elemental\s+)*(?:function|subroutine)\s+(\w+)", contains, re.M | re.I)]
+    ifaces = {}
+    for m in re.finditer(r"^\s*interface\s+(\w+)\s*\n(.*?)^\s*end interface", code, re.M | re.S | re.I):
+        ifaces.setdefault(m.group(1).lower(), []).extend(x.lower() for x in re.findall(r"module procedure\s+(\w+)", m.group(2), re.I))
+    return procs, ifaces
+
+
+def run_cppif(case):
+    """Overload sets of which some members carry cpp_if: with the macro defined and undefined, the generic interface of a
+    C++ name must list exactly the specifics that exist in that configuration (the preprocessor sees the module)."""
+    lib, guarded = case["lib"], set(case["guarded"])
+    res = {"violations": [], "stats": {}, "name": lib["name"]}
+    rr = engine.generate(lib)
+    cwd = rr.get("cwd")
+    try:
+        if rr.get("exc") or rr.get("exit") != 0:
+            k_, t_ = engine.reject_mech(rr)
+            res["violations"].append({"mech": "shroud-rejects:" + k_, "detail": "%s: %s" % (lib["name"], t_)})
+            return res
+        out = os.path.join(cwd, "out")
+        c_names, f_specs, f_generics = expected_names(lib)
+        for mode, flags in (("defined", ["-DVF_GUARD"]), ("undefined", [])):
+            code = ""
+            for f in engine.fortran_files(out):
+                p = subprocess.run(["gfortran", "-cpp", "-E", "-P"] + flags + [f], cwd=out, capture_output=True, text=True, timeout=120)
+                if p.returncode != 0:
+                    res["violations"].append({"mech": "module-does-not-preprocess:%s" % mode, "detail": "%s %s\n%s" % (lib["name"], f, p.stderr[:800])})
+                code += p.stdout + "\n"
+            code = "\n".join(ln for ln in code.split("\n") if not ln.lstrip().startswith("!"))
+            code = re.sub(r"&\s*\n\s*", "", code)
+            procs, ifaces = parse_fortran(code)
+            for key, specs in f_generics.items():
+                if isinstance(key, str) or key[0] or len(specs) < 2:
+                    continue
+                active = sorted(x for x in specs if mode == "defined" or x not in guarded)
+                got = sorted(ifaces.get(key[1]) or [])
+                res["stats"]["cpp_if_generics_checked"] = res["stats"].get("cpp_if_generics_checked", 0) + 1
+                missing_procs = [x for x in active if x not in procs]
+                if missing_procs:
+                    res["violations"].append({"mech": "cpp_if:specific-missing:%s" % mode,
+                                              "detail": "%s [%s]: module procedures %s expected, module has %s" % (lib["name"], mode, missing_procs, procs)})
+                elif got != active and not (len(active) == 1 and not got):
+                    res["violations"].append({"mech": "cpp_if:generic-differs:%s" % mode,
+                                              "detail": "%s [VF_GUARD %s]: generic %s lists %r; the specifics that exist are %r" % (lib["name"], mode, key[1], got, active)})
+        return res
+    finally:
+        if cwd:
+            common.rmtree(cwd)
+
+
 def _kind(lib, cname):
     for f in lib["functions"]:
         for v in f["variants"]:
@@ -320,6 +373,25 @@ def main(rec):
             groups = [make_group("g%dname" % gi, *r.choice(combos)[:5], cls=r.choice([None, "K0", "K1"])) for gi in range(r.randint(2, 8))]
             groups = [g for g in groups if not (any(f.get("template") for f in g) and any(f.get("cls") for f in g))]
             cases.append({"lib": build_lib("r%d" % k, groups, "c++", ("c", "fortran"), namespace=r.choice([None, "outer"]), interleave=r.random() < 0.5)})
+    # cpp_if on some members of an overload set (first / last / middle member guarded)
+    cpp_cases = []
+    for ci, (nover, which) in enumerate([(2, [0]), (2, [1]), (3, [0]), (3, [1]), (3, [0, 2]), (3, [2])]):
+        g = make_group("g0name", nover, 0, None, False, None)
+        guarded = []
+        for wi in which:
+            g[wi].setdefault("yaml", {})["cpp_if"] = "ifdef VF_GUARD"
+        libc = build_lib("ncpp%d" % ci, [g, make_group("g1name", 1, 0, None, False, None)], "c++", ("c", "fortran"))
+        for wi in which:
+            guarded += [v["f_specific"] for v in libc["functions"][wi]["variants"]]
+        cpp_cases.append({"lib": libc, "guarded": guarded})
+    cres = pool.run_cases("vf.checks.c08", cpp_cases, func="run_cppif", timeout=600)
+    for c, rr in zip(cpp_cases, cres):
+        if "stats" not in rr:
+            workloads.bad_run(rec, {"name": c["lib"]["name"]}, rr)
+            continue
+        rec.merge_stats(rr["stats"])
+        for v in rr["violations"]:
+            rec.violation(v["mech"], v["detail"], {"lib": c["lib"]["name"], "guarded": c["guarded"]})
     res = pool.run_cases("vf.checks.c08", cases, func="run_library", timeout=1800)
     for c, rr in zip(cases, res):
         if "stats" not in rr:
